@@ -103,7 +103,7 @@ impl Family for C01Family {
         let mut r = Prng::new(seed);
         let r = &mut r;
         let faulty_udp = r.chance(1, 5);
-        let net = NetPlan {
+        let mut net = NetPlan {
             latency_lo: 0,
             latency_hi: *r.pick(&[0u64, 0, 2, 50]),
             partial_io: *r.pick(&[0u32, 100, 400]),
@@ -122,6 +122,7 @@ impl Family for C01Family {
         };
         let n_tcp = if r.chance(1, 8) { 0 } else { 1 + r.below(6) };
         let mut tcp: Vec<TcpConn> = vec![];
+        let mut small_buffers = false;
         for _ in 0..n_tcp {
             let big = r.chance(1, if tier == Tier::Quick { 400 } else { 60 });
             let (client_end, target_mode) = match r.below(20) {
@@ -130,19 +131,28 @@ impl Family for C01Family {
                 12 => (2, 1),
                 13 | 14 => (0, 2),
                 15 | 16 => (0, 3),
-                17 | 18 => (1, 4),
+                17 => (1, 4),
+                18 => (0, 5),
                 _ => (1, 0),
             };
-            let up = sizes(r, big);
+            let mut up = sizes(r, big);
+            if target_mode == 5 && r.chance(1, 2) {
+                // enough to exhaust the 512-frame window when frames are socket-buffer sized (1 KiB)
+                up = vec![65_536; 16];
+                small_buffers = true;
+            }
             let mut down = if big && r.chance(1, 2) { vec![] } else { sizes(r, false) };
             if target_mode == 4 {
                 down = vec![];
             }
             let early_k = r.below(up.iter().sum::<usize>() + 1);
-            tcp.push(TcpConn { entry: r.below(8) as u8, start_ms: r.below(300) as u64, up, down, up_gap_ms: *r.pick(&[0u64, 0, 1, 30]), down_gap_ms: *r.pick(&[0u64, 0, 1, 30]), client_end, target_mode, early_k, target_read_delay_ms: if big { 2000 } else { *r.pick(&[0u64, 0, 0, 500]) } });
+            tcp.push(TcpConn { entry: r.below(9) as u8, start_ms: r.below(300) as u64, up, down, up_gap_ms: *r.pick(&[0u64, 0, 1, 30]), down_gap_ms: *r.pick(&[0u64, 0, 1, 30]), client_end, target_mode, early_k, target_read_delay_ms: if big { 2000 } else { *r.pick(&[0u64, 0, 0, 500]) } });
+        }
+        if small_buffers {
+            net.buf_cap = 1024;
         }
         let n_udp_targets = 1 + r.below(2);
-        let n_udp = if n_tcp == 0 { 1 + r.below(4) } else { r.below(4) };
+        let n_udp = if n_tcp == 0 { 1 + r.below(4) } else if small_buffers { 0 } else { r.below(4) };
         if n_udp > 0 {
             // datagrams share the WebSocket with the streams: keep stream volume small in runs with
             // UDP exchanges so that head-of-line blocking cannot push a reply beyond the prune window
@@ -155,7 +165,7 @@ impl Family for C01Family {
             }
         }
         let udp = (0..n_udp)
-            .map(|_| UdpClient { via_socks: r.chance(1, 2), target: r.below(n_udp_targets), start_ms: r.below(200) as u64, sizes: (0..(1 + r.below(4))).map(|_| *r.pick(&[0usize, 1, 2, 3, 4, 13, 100, 1400, 9000])).collect(), gap_ms: *r.pick(&[0u64, 10, 300, 900]), hops: (0..4).map(|_| r.below(2)).collect() })
+            .map(|_| UdpClient { via_socks: r.chance(1, 2), target: r.below(n_udp_targets), start_ms: r.below(200) as u64, sizes: (0..(1 + r.below(4))).map(|_| *r.pick(&[0usize, 1, 2, 3, 4, 13, 100, 1400, 9000])).collect(), gap_ms: if r.chance(1, 6) { *r.pick(&[10_500u64, 15_000, 19_500, 25_000]) } else { *r.pick(&[0u64, 10, 300, 900]) }, hops: (0..4).map(|_| r.below(2)).collect(), junk: (0..4).map(|_| if r.chance(1, 4) { 1 + r.below(4) as u8 } else { 0 }).collect() })
             .collect();
         (serde_json::to_value(C01Plan { net, tcp, udp, n_udp_targets }).expect("plan"), seed)
     }
@@ -167,7 +177,7 @@ impl Family for C01Family {
         c01::run(&plan, sched)
     }
     fn rule(&self) -> &'static str {
-        "the real client with a seeded set of remotes (TCP port, Unix socket, SOCKS, HTTP proxy, 1-2 UDP remotes) against the real server and simulated targets; 0-6 concurrent local TCP connections through a random entry point each (fixed TCP/Unix remote, SOCKS4, SOCKS4a, SOCKS5 with IPv4/domain/IPv6 target, HTTP CONNECT) with seeded write chunkings on both ends (0..64 KiB chunks, occasionally 6 MiB against a target that reads late), who half-closes first, abrupt closes, targets that refuse, close early or stay silent; 0-4 concurrent local UDP clients through UDP remotes or SOCKS5 UDP ASSOCIATE with payloads of 0..9000 bytes; simulated network with seeded latency, partial reads/writes, spurious Pending, small socket buffers, and (in a fifth of the runs) UDP loss/duplication/reordering, where the UDP oracle is relaxed to `never misdelivered or corrupted`. Non-trivial: bytes flowed both ways on some TCP connection or a UDP reply arrived."
+        "the real client with a seeded set of remotes (TCP port, Unix socket, SOCKS, HTTP proxy, 1-2 UDP remotes) against the real server and simulated targets; 0-6 concurrent local TCP connections through a random entry point each (fixed TCP/Unix remote, SOCKS4, SOCKS4a, SOCKS5 with IPv4/domain/IPv6 target, HTTP CONNECT to a host name or an IPv6 literal) with seeded write chunkings on both ends (0..64 KiB chunks, occasionally 6 MiB against a target that reads late), who half-closes first, abrupt closes, targets that refuse, close early, stay silent, or answer, half-close and close without ever reading while the local client is still uploading more than the flow-control window holds; 0-4 concurrent local UDP clients through UDP remotes or SOCKS5 UDP ASSOCIATE with payloads of 0..9000 bytes; simulated network with seeded latency, partial reads/writes, spurious Pending, small socket buffers, and (in a fifth of the runs) UDP loss/duplication/reordering, where the UDP oracle is relaxed to `never misdelivered or corrupted`. Non-trivial: bytes flowed both ways on some TCP connection or a UDP reply arrived."
     }
 }
 fn c01() -> Check {
@@ -214,7 +224,7 @@ impl Family for C14Family {
         if self.enumerate { "matrix" } else { "sampled" }
     }
     fn runs(&self, tier: Tier) -> u64 {
-        let all = 4 * c14_deviation_sets().len() as u64;
+        let all = 12 * c14_deviation_sets().len() as u64;
         match (self.enumerate, tier) {
             (true, Tier::Quick) => all * 3,
             (true, Tier::Thorough) => all * 40,
@@ -227,13 +237,14 @@ impl Family for C14Family {
         let seed = simcore::prng::mix(batch_seed, self.name(), index);
         let mut r = Prng::new(seed);
         let r = &mut r;
-        let mut p = C14Plan { psk_on: false, obfs: false, method: 0, path: 0, hv: [0; 5], psk: 0, frags: vec![], frag_delay_ms: 0, net: common::NetPlan::default(), try_tunnel: true };
+        let mut p = C14Plan { psk_on: false, obfs: false, method: 0, path: 0, hv: [0; 5], psk: 0, frags: vec![], frag_delay_ms: 0, net: common::NetPlan::default(), try_tunnel: true, backend: 0 };
         if self.enumerate {
             let sets = c14_deviation_sets();
-            let k = index % (4 * sets.len() as u64);
+            let k = index % (12 * sets.len() as u64);
             let cfg = k / sets.len() as u64;
             p.psk_on = cfg & 1 == 1;
             p.obfs = cfg & 2 == 2;
+            p.backend = (cfg / 4) as u8;
             for (f, v) in &sets[(k % sets.len() as u64) as usize] {
                 match f {
                     0 => p.method = *v,
@@ -251,6 +262,7 @@ impl Family for C14Family {
                 *h = if r.chance(1, 2) { r.below(2) as u8 } else { r.below(N_HVAR as usize) as u8 };
             }
             p.psk = if r.chance(1, 2) { 0 } else { r.below(N_PSK as usize) as u8 };
+            p.backend = r.below(3) as u8;
         }
         // fragmentation: split points anywhere, including inside a header name, with virtual delays
         p.frags = match r.below(5) {
